@@ -93,6 +93,8 @@ inductive MEv
   | stop (tag : Str)
   | data (text : Str)
   | ns (pfx : Option Str) (uri : Str)      -- strict back end: startPrefixMapping → track_namespace
+  | cref (ref : Str)                       -- stage 6, loose back end: `handle_charref(ref)` for `&#ref;` in character data
+  | eref (ref : Str)                       -- stage 6, loose back end: `handle_entityref(ref)` for `&ref;`
 deriving Repr
 
 structure Ops where
@@ -109,6 +111,7 @@ structure Ops where
   decodeEnt : Str → Str → Str := fun _ x => x              -- the back end's `decode_entities` as type-or-"xml", text (identity for the strict one)
   resolveOn : Bool := true                                 -- `self.resolve_relative_uris` (the effective per-call option, C18)
   sanitizeOn : Bool := true                                -- `self.sanitize_html`
+  entities : Str → Option Str := fun _ => none             -- stage 6: `self.entities` (the safe entities of the DOCTYPE: M-doctype, C12)
 
 inductive Outcome
   | ok (s : MSt)
@@ -232,7 +235,7 @@ def pop (o : Ops) (s : MSt) (element : Str) : MSt :=
     let output0 := stripS top.pieces.flatten
     if !top.expecting then ⟨c, rest⟩ else
     let output1 := if canBeRelativeUri.contains element && !output0.isEmpty && (element != S "id" || c.guidislink) then o.join c.base.baseuri.toList output0 else output0
-    let output := o.fix output1
+    let output := o.fix (o.decodeEnt (S "xml") output1)      -- outside text constructs `contentparams` is empty: `decode_entities` sees the type "xml"
     if element == S "category" || element == S "tags" || element == S "itunes_keywords" then ⟨c, rest⟩ else
     if c.inentry then ⟨{ c with entries := updHead (writeEntry element output c.depth) c.entries }, rest⟩
     else if c.infeed then ⟨{ c with feed := fset c.feed element (.s output) }, rest⟩
@@ -246,7 +249,7 @@ def popValue (o : Ops) (s : MSt) (element : Str) : Option Str :=
     if top.name != element then none else
     let output0 := stripS top.pieces.flatten
     let output1 := if canBeRelativeUri.contains element && !output0.isEmpty && (element != S "id" || s.c.guidislink) then o.join s.c.base.baseuri.toList output0 else output0
-    some (o.fix output1)
+    some (o.fix (o.decodeEnt (S "xml") output1))
 
 def push (s : MSt) (name : Str) (expecting : Bool) : MSt := { s with stack := ⟨name, expecting, []⟩ :: s.stack }
 
@@ -760,11 +763,61 @@ def handleData (s : MSt) (text : Str) : MSt :=
   | [] => s
   | top :: rest => { s with stack := { top with pieces := top.pieces ++ [text] } :: rest }
 
+/-! ### stage 6: references as the loose back end delivers them (`handle_charref`, `handle_entityref`, mixin.py:370-407) -/
+
+def hexVal (c : Char) : Option Nat :=
+  if '0' ≤ c ∧ c ≤ '9' then some (c.toNat - 48) else if 'a' ≤ c ∧ c ≤ 'f' then some (c.toNat - 87) else none
+
+def parseNat (base : Nat) : Str → Option Nat
+  | [] => none
+  | cs => cs.foldl (fun acc c => match acc, hexVal c with
+      | some a, some d => if d < base then some (a * base + d) else none
+      | _, _ => none) (some 0)
+
+/-- the ten references that are kept as text (`&#38;` … — `decode_entities` turns them into named references later) -/
+def keptCharrefs : List Str := [S "34", S "38", S "39", S "60", S "62", S "x22", S "x26", S "x27", S "x3c", S "x3e"]
+
+/-- the text `handle_charref(ref)` appends: the reference itself for the ten kept ones, else the character — U+FFFD for surrogates and values beyond
+U+10FFFF; none when `int()` raises (sgmllib's tokenizer never hands over such a `ref`) -/
+def crefText (ref0 : Str) : Option Str :=
+  let ref := lowerS ref0
+  if keptCharrefs.contains ref then some (S "&#" ++ ref ++ [';']) else
+  match (match ref with | 'x' :: h => parseNat 16 h | _ => parseNat 10 ref) with
+  | none => none
+  | some c => if c.isValidChar then some [Char.ofNat c] else some [Char.ofNat 0xFFFD]
+
+def name2codepoint (ref : Str) : Option Nat := (Gen.Mixin.name2codepointL.find? (·.1 == ref)).map (·.2)
+
+/-- the text `handle_entityref(ref)` appends: the five predefined names stay references; a DOCTYPE entity gives its replacement text — a replacement
+of the form `&#…;` is looked up again AS A NAME (the code re-enters itself with the whole text), which for every table `replace_doctype` builds ends in the
+literal `&&#…;;`; an HTML entity name gives its character; anything else stays `&ref;`.  The re-entry is bounded by fuel (entity names never start with `&#`, so
+the real recursion is one level deep). -/
+def erefTextF (o : Ops) : Nat → Str → Str
+  | 0, ref => ['&'] ++ ref ++ [';']
+  | n + 1, ref =>
+    if ref == S "lt" || ref == S "gt" || ref == S "quot" || ref == S "amp" || ref == S "apos" then ['&'] ++ ref ++ [';']
+    else match o.entities ref with
+    | some t => if (S "&#").isPrefixOf t && endsWith [';'] t then erefTextF o n t else t
+    | none => (match name2codepoint ref with | some c => [Char.ofNat c] | none => ['&'] ++ ref ++ [';'])
+def erefText (o : Ops) (ref : Str) : Str := erefTextF o 8 ref
+
+/-- the loose back end's `decode_entities` (parsers/loose.py:50-71): the kept numeric references become named ones; for a content type that does not end in
+`xml` the five named references (and `&#x2f;`) are decoded.  `ty` = `contentparams.get("type", "xml")`.  (The strict back end's is the identity.) -/
+def looseDecode (ty : Str) (data : Str) : Str :=
+  let d1 := [(S "&#60;", S "&lt;"), (S "&#x3c;", S "&lt;"), (S "&#x3C;", S "&lt;"), (S "&#62;", S "&gt;"), (S "&#x3e;", S "&gt;"), (S "&#x3E;", S "&gt;"),
+             (S "&#38;", S "&amp;"), (S "&#x26;", S "&amp;"), (S "&#34;", S "&quot;"), (S "&#x22;", S "&quot;"), (S "&#39;", S "&apos;"), (S "&#x27;", S "&apos;")].foldl
+            (fun acc p => replaceAll p.1 p.2 acc) data
+  if endsWith (S "xml") ty then d1 else
+    [(S "&lt;", S "<"), (S "&gt;", S ">"), (S "&amp;", S "&"), (S "&quot;", S "\""), (S "&apos;", S "'"), (S "&#x2f;", S "/"), (S "&#x2F;", S "/")].foldl
+      (fun acc p => replaceAll p.1 p.2 acc) d1
+
 def mstep (o : Ops) (s : MSt) : MEv → Outcome
   | .start tag attrs => startTag o s tag attrs
   | .stop tag => endTag o s tag
   | .data t => .ok (handleData s t)
   | .ns p u => .ok ⟨trackNamespace s.c p u, s.stack⟩
+  | .cref ref => (match crefText ref with | some t => .ok (handleData s t) | none => .unmodelled (S "malformed character reference"))
+  | .eref ref => .ok (handleData s (erefText o ref))
 
 def mrun (o : Ops) : MSt → List MEv → Outcome
   | s, [] => .ok s
